@@ -56,14 +56,14 @@ REQUIRED_FEATURES = {
     "quick": {
         "returned": 200, "raised": 200, "lines>=50000": 16, "stale-table:member-older": 8, "stale-table:member-newer": 8,
         "crash-fired:download": 8, "crash-fired:decompress": 8, "crash-fired:offset": 4, "net:recovered-after-10-incomplete": 1,
-        "net:gave-up-after-11-incomplete": 1, "net:offline": 5, "net:no-base-url": 5, "entry:bundled": 5, "bundled-entry-with-stale-table": 8, "entry:docs": 5, "followup-run": 10,
+        "net:gave-up-after-11-incomplete": 1, "net:offline": 5, "net:no-base-url": 5, "entry:bundled": 5, "bundled-entry-with-stale-table": 8, "crlf-with-table-entries": 2, "entry:docs": 5, "followup-run": 10,
         "external-decompressor-failed-library-fallback": 3, "fmt:.bz2": 20, "fmt:.gz": 20, "fmt:.zst": 20, "fmt:.zip": 20, "fmt:.tar": 20,
         "fmt:.tar.gz": 20, "fmt:.tgz": 20, "fmt:.tar.bz2": 20, "fmt:none": 10,
     },
     "thorough": {
         "returned": 2000, "raised": 2000, "lines>=50000": 60, "stale-table:member-older": 20, "stale-table:member-newer": 20,
         "crash-fired:download": 40, "crash-fired:decompress": 40, "crash-fired:offset": 20, "net:recovered-after-10-incomplete": 2,
-        "net:gave-up-after-11-incomplete": 2, "net:offline": 50, "net:no-base-url": 50, "entry:bundled": 50, "bundled-entry-with-stale-table": 8, "entry:docs": 50, "followup-run": 100,
+        "net:gave-up-after-11-incomplete": 2, "net:offline": 50, "net:no-base-url": 50, "entry:bundled": 50, "bundled-entry-with-stale-table": 8, "crlf-with-table-entries": 2, "entry:docs": 50, "followup-run": 100,
         "external-decompressor-failed-library-fallback": 20,
     },
 }
@@ -200,12 +200,13 @@ def stale_cases(tier):
     i = 0
     for fmt in E.FORMATS + [None]:
         for member in ("older", "newer"):
-            variants = [("absent", "absent")] if tier == "quick" else [("absent", "absent"), ("absent", "correct"), ("trunc-mid", "correct"), ("correct", "absent")]
+            # quick: the document file is missing, or a partial one (an extraction that died) lies beside the old table and the archive is there
+            variants = [("absent", "absent"), ("trunc-mid", "correct")] if tier == "quick" else [("absent", "absent"), ("absent", "correct"), ("trunc-mid", "correct"), ("correct", "absent")]
             for doc_state, arc_state in variants:
                 for v1 in ([V1_LONG, V1_SHORT][i % 2 :][:1] if tier == "quick" else [V1_LONG, V1_SHORT]):
                     if fmt is None and arc_state != "absent":
                         continue
-                    c = base_case("stale", fmt=fmt, corpus=dict(BIG[i % (3 if tier == "quick" else len(BIG))]), v1=dict(v1), rseed=i)
+                    c = base_case("stale", fmt=fmt, corpus=dict(([BIG[0], BIG[1], BIG[2], BIG[4]] if tier == "quick" else BIG)[i % (4 if tier == "quick" else len(BIG))]), v1=dict(v1), rseed=i)
                     c["declared"] = {"comp": i % 3 != 0, "uncomp": True if doc_state.startswith("trunc") else i % 2 == 0, "wrong": None}
                     c["init"].update({"doc": doc_state, "archive": arc_state, "table": "stale", "member": member})
                     out.append(c)
@@ -621,6 +622,8 @@ def features_of(case):
         f.add(f"fault:{o}")
     if case["corpus"]["eol"] == "\r\n":
         f.add("crlf")
+        if case["corpus"]["lines"] >= STRIDE:
+            f.add("crlf-with-table-entries")
     return f
 
 
